@@ -225,3 +225,41 @@ def replay_file(ctx, data, owns, kind):
             beh.append(dict(e, obs=x.get("obs")) if e["ev"] == "Step" else e)
         tasks = [(r["draw"], beh, {"numeric": True})]
     run_rt(ctx, tasks, owns, kind)
+
+
+def run_repo_tests(ctx, owns, kind, tests=("distributed_shampoo/tests/distributed_shampoo_test.py", "distributed_shampoo/gpu_tests")):
+    """Engine T, source (iii): the repository's own tests run under harness.pytest_trace; every DistributedShampoo instance they
+    create and step is validated by TLC against the specification (the CCF lesson: tests exercise more than they assert)."""
+    import json
+    import os
+    import subprocess
+    import tempfile
+    from harness import common
+    with tempfile.TemporaryDirectory(dir="/var/tmp") as d:
+        out = os.path.join(d, "traces.json")
+        env = dict(os.environ, VERIF_TRACE_OUT=out, PYTHONPATH=f"{common.VERIF}:{common.REPO}")
+        p = subprocess.run(["/venv/bin/python", "-m", "pytest", "-q", "-p", "no:cacheprovider", "-p", "harness.pytest_trace", "--timeout=900",
+                            "--continue-on-collection-errors", *tests], cwd=str(common.REPO), env=env, capture_output=True, text=True)
+        if not os.path.exists(out):
+            ctx.note("pytest trace plugin produced no output (coverage reduced): " + p.stdout[-300:])
+            return
+        data = json.load(open(out))
+    traces = data["traces"]
+    vals = behaviours.validate(traces) if traces else []
+    n_steps = 0
+    for tr, val in zip(traces, vals):
+        n_steps += sum(1 for e in tr["events"] if e["ev"] == "Step")
+        probs = [{"at": m[0], "clause": f"g{m[1]}.trace.{m[2]}", "expected": m[3], "observed": m[4]} for m in val["mism"]]
+        probs += [{"at": b[0], "clause": f"g{b[1]}.spec.{b[2]}", "expected": "clause holds", "observed": "violated"} for b in val["bad"]]
+        if not probs:
+            continue
+        at0 = min(p["at"] for p in probs)
+        firsts = [p for p in probs if p["at"] == at0]
+        mine = [p for p in firsts if owns(p["clause"], p)]
+        if mine:
+            ctx.violation(f"{kind}: trace recorded from the repository's own tests rejected by the specification: {mine[0]['clause']} at event "
+                          f"{mine[0]['at']}: expected {mine[0]['expected']}, observed {mine[0]['observed']}",
+                          {"kind": kind, "clause": mine[0]["clause"].split(".", 1)[1]}, {"repo_test_trace": tr, "mismatches": probs[:10]})
+    ctx.add("traces_validated_against_impl", len(traces))
+    ctx.put("repo_test_suite_traces", {"optimizer_instances": data["instances"], "validated": len(traces), "steps": n_steps,
+                                        "skipped": len(data["skipped"]), "skip_reasons": sorted(set(data["skipped"]))})
